@@ -32,10 +32,15 @@ def generate(run, exe, env):
             raise vf.HarnessError("osmocon dumper printed no %s (answer: %s)" % (k, str(vals)[:300]))
     src = open(os.path.join(vf.REPO, "src/host/osmocon/osmocon.c"), errors="replace").read()
     fn = vf.c_function(src, "hdlc_send_to_phone") or ""
-    m = re.search(r"sercomm_alloc_msgb\s*\(\s*(\d+)\s*\)", fn)
+    m = re.search(r"sercomm_alloc_msgb\s*\(\s*([^()]+?)\s*\)", fn)
     if not m:
-        raise vf.HarnessError("hdlc_send_to_phone: no sercomm_alloc_msgb(<literal>) found")
-    vals["send_alloc"] = m.group(1)
+        raise vf.HarnessError("hdlc_send_to_phone: no sercomm_alloc_msgb(...) found")
+    arg = m.group(1)
+    if not arg.isdigit():
+        # a named constant: its definition in the same file, else the observed send bound (the buffer is asked for that size)
+        d = re.search(r"^[ \t]*#[ \t]*define[ \t]+%s[ \t]+\(?\s*(\d+)\s*\)?[ \t]*(?:/\*.*)?$" % re.escape(arg), src, re.M) if re.fullmatch(r"[A-Za-z_]\w*", arg) else None
+        arg = d.group(1) if d else str(vals["send_max"])
+    vals["send_alloc"] = arg
     if int(vals["write_buf"]) < 1 or int(vals["send_max"]) < 0:
         raise vf.HarnessError("osmocon dumper: could not observe write_buf / send_max (%s, %s)" % (vals["write_buf"], vals["send_max"]))
 
